@@ -402,12 +402,12 @@ def generic_tetrads():
 def subchecks(tier):
     q = tier == "quick"
     return [
-        Sub("weyl", weyl_case(), test_weyl, 16 if q else 300,
+        Sub("weyl", weyl_case(), test_weyl, 16 if q else 1000,
             generic=generic_weyl(), shards=8 if q else 16, max_rounds=2,
             shrink_quick=False, pregenerate=True),
-        Sub("tetrad", tetrad_case(), test_tetrad, 48 if q else 600,
+        Sub("tetrad", tetrad_case(), test_tetrad, 48 if q else 3000,
             generic=generic_tetrads(), shards=4 if q else 8, max_rounds=2),
-        Sub("scalars", scalar_case(), test_scalars, 12 if q else 200,
+        Sub("scalars", scalar_case(), test_scalars, 12 if q else 600,
             generic=generic_scalars(), shards=8 if q else 16, max_rounds=2,
             shrink_quick=False, pregenerate=True),
     ]
